@@ -161,7 +161,18 @@ def printers(design, seed=0, nsteps=4):
         # identifiers are sanitised names; map back by order of the sorted trace keys
         names_sorted = sorted(ref, key=pyrtl.simulation._trace_sort_key)
         vars_in_order = list(ids)
+        # a name that is already a legal identifier keeps its own name in the dump: those are matched by NAME
+        # (a positional match could not tell two swapped labels apart); sanitised names by position
+        import re
+        legal = [nm for nm in names_sorted if re.match(r'^[A-Za-z_][A-Za-z0-9_]*$', nm)]
+        missing = [nm for nm in legal if nm not in ids]
+        if missing:
+            return dict(failed=True, observed=dict(vcd_vars=vars_in_order, missing=missing),
+                        expected='every traced wire with a legal name dumped under that name')
+        pairs = []
         for nm, vid in zip(names_sorted, vars_in_order):
+            pairs.append((nm, nm if nm in legal else vid))
+        for nm, vid in pairs:
             w = tr._wires[nm].bitwidth
             if widths[vid] != w:
                 return dict(failed=True, observed=dict(var=vid, width=widths[vid]), expected=w)
@@ -339,13 +350,15 @@ def vcd_names(w=3):
     """traced wires whose names need sanitising for VCD, next to wires named like their
     punctuation-replaced forms, and names that differ only by where leading zeros sit"""
     import pyrtl
-    names = ['alu.sum', 'alu_sum', 'a.b', 'a[b', 'a_b', 'x.y', 'x_y', 's01_2', 's1_02', 's1_2']
+    names = ['alu.sum', 'alu_sum', 'a.b', 'a[b', 'a_b', 'x.y', 'x_y', 's01_2', 's1_02', 's1_2',
+             # natural order (d2 < d9 < d10) differs from string order ('d10' < 'd2' < 'd9'); widths differ too
+             'd2', 'd10', 'd9', 'q100', 'q20', 'q3']
     ins = [pyrtl.Input(w, 'in%d' % i) for i in range(2)]
     acc = ins[0]
     for i, nm in enumerate(names):
-        wv = pyrtl.WireVector(w, nm)
-        wv <<= (acc + i + ins[1])[:w]
-        acc = wv
+        wv = pyrtl.WireVector(w + (i % 3 if nm[0] in 'dq' else 0), nm)
+        wv <<= (acc + i + ins[1])[:w].zero_extended(len(wv)) if len(wv) > w else (acc + i + ins[1])[:w]
+        acc = wv[:w]
     o = pyrtl.Output(w, 'out0')
     o <<= acc
 
